@@ -767,8 +767,8 @@ func (b *c07Box) fuItem(r *RNG) fuItem {
 		if r.Chance(40) {
 			s = []byte(r.Pick2("..", "..", "../..", "evil.txt", "x", "new", ".", ""))
 		}
-		if len(s) > 252 { // 253..255-byte segments make FormattedPath panic (byte arithmetic): covered by folder-item-path
-			s = s[:252]
+		if len(s) > 255 {
+			s = s[:255]
 		}
 		it.segs = append(it.segs, s)
 		path = append(path, 0, 0, byte(len(s)))
